@@ -166,7 +166,7 @@ var vuniverse = []string{"a", "a@", "a!", "b", "a@1"}
 func vDrain(db *DB) {
 	vf.Drain()
 	if vf.Native() {
-		for i := 0; i < 50000; i++ {
+		for i := 0; i < 600000; i++ { // up to 60 s under heavy machine load; returns as soon as the engine is idle
 			db.mu.RLock()
 			n := db.immutables.Len()
 			db.mu.RUnlock()
